@@ -16,14 +16,22 @@ A(path, text) == [path |-> path, text |-> text]
 Outer == CASE c.outer = "bare" -> A("typeshare", "#[typeshare]")
            [] c.outer = "swift" -> A("typeshare", "#[typeshare(swift = \"Equatable\")]")
            [] c.outer = "redacted" -> A("typeshare", "#[typeshare(redacted)]")
-HelperAttr == CASE c.helper = "skip" -> A("typeshare", "#[typeshare(skip)]")
-                [] c.helper = "serialized_as" -> A("typeshare", "#[typeshare(serialized_as = \"String\")]")
-                [] c.helper = "lang" -> A("typeshare", "#[typeshare(typescript(readonly), swift(type = \"Int\"))]")
+\* the helper attributes put on a position: one attribute, or several SEPARATE typeshare attributes on the same element
+\* (adjacent, or with another attribute between them) - Strip must remove every one of them
+TS(text) == A("typeshare", text)
+HelperAttrs == CASE c.helper = "skip" -> << TS("#[typeshare(skip)]") >>
+                 [] c.helper = "serialized_as" -> << TS("#[typeshare(serialized_as = \"String\")]") >>
+                 [] c.helper = "lang" -> << TS("#[typeshare(typescript(readonly), swift(type = \"Int\"))]") >>
+                 [] c.helper = "stacked" -> << TS("#[typeshare(skip)]"), TS("#[typeshare(serialized_as = \"String\")]") >>
+                 [] c.helper = "stacked_apart" -> << TS("#[typeshare(serialized_as = \"String\")]"), A("doc", "/// between the helpers"),
+                                                    TS("#[typeshare(typescript(readonly))]") >>
+                 [] c.helper = "triple" -> << TS("#[typeshare(skip)]"), TS("#[typeshare(swift(type = \"Int\"))]"), A("cfg", "#[cfg(all())]"),
+                                             TS("#[typeshare(kotlin(type = \"Int\"))]") >>
 MixBefore == IF c.mix = "none" THEN <<>> ELSE << A("doc", "/// documented"), A("cfg", "#[cfg(all())]") >>
 \* serde attributes valid at the position: fields take `default`, variants take `rename` (unions derive nothing)
 MixAfter(pos) == IF c.mix = "serde" /\ c.kind # "union"
                  THEN << A("serde", IF pos = "variant" THEN "#[serde(rename = \"renamed_key\")]" ELSE "#[serde(default)]") >> ELSE <<>>
-At(i, pos) == MixBefore \o (IF i \in c.at THEN <<HelperAttr>> ELSE <<>>) \o MixAfter(pos)
+At(i, pos) == MixBefore \o (IF i \in c.at THEN HelperAttrs ELSE <<>>) \o MixAfter(pos)
 M(name, i, pos, fields) == [name |-> name, attrs |-> At(i, pos), fields |-> fields]
 F(name, i) == [name |-> name, attrs |-> At(i, "field"), fields |-> <<>>]
 Members ==
